@@ -376,6 +376,9 @@ def run_property(prop, tier, seed, jobs=None, only_family=None):
             samples += r["evidence"].get("samples", [])[:2]
             continue
         cases = fam.cases(tier, seed)
+        if os.environ.get("VERIF_CASES"):      # debugging aid: run only the listed case indices
+            sel = {int(x) for x in os.environ["VERIF_CASES"].split(",")}
+            cases = [c for i, c in enumerate(cases) if i in sel]
         fam_tot = dict(paths=0, decisions=0, forks=0, checks=0, tsolve=0.0, validated=0, unknown=0, checked=0,
                        nonlinear=0, snap_miss=0)
         tags = {}
